@@ -20,6 +20,11 @@ RULE = (
     "is_async_fn / is_pure_async_fn / has_async_fn / get_async_fn / get_async_or_sync_fn must agree with how the object "
     "can actually be called. distinct = cell; non-trivial = every cell (each runs at least 4 conventions)."
 )
+RULE += (
+    " Added body: a plain function that hands back its value through asynq.result(). Added conventions per "
+    "cell: the same requests (sync call, .asynq().value(), async_call) made synchronously by a task that is "
+    "RUNNING at that moment."
+)
 ASSUMPTIONS = ["bodies are deterministic, so cached wrappers (alru_cache, acached_per_instance, deduplicate) return the twin's value on every call"]
 UNIT_TIMEOUT = {"quick": 200, "thorough": 1200}
 
